@@ -10,9 +10,9 @@ recursion only below fields whose unwrapped type is an object), `tryExtract` (wh
 `literalToInput`, one synthetic variable per (type, printed literal), `nextName` skipping the operation's own
 variable names, synthetic variable definitions appended after the user's.
 
-Bug-faithful points (see notes/agents/C06.md, D-06h…j): `tryExtract` only asks `valueFromAST(...) != nil`, NOT
-whether the literal is valid for the type; `literalToInput` renders `-0` as the integer 0; `taken` holds the names the
-operation DEFINES, not the names it uses.
+As of 80085fd (repairs of D-06h…j): `tryExtract` asks `isValidLiteralValue` before extracting; `literalToInput` keeps an
+integer token that does not spell back unchanged (`-0`) as text; `taken` holds every variable name that occurs anywhere
+in the document (definitions and uses, all operations and fragments).
 
 Representation: Go keeps `synthArgs` (map), `newVarDefs` (slice) and `byLiteral` (map) in step; the model keeps ONE list
 of `Entry` (name, expected type, literal) in extraction order from which the three are derived.
@@ -30,12 +30,13 @@ def maxInt64 : Int := 9223372036854775807
 def inInt64 (i : Int) : Bool := decide (minInt64 ≤ i) && decide (i ≤ maxInt64)
 
 mutual
-/-- `literalToInput`: `strconv.Atoi` / `ParseFloat` succeed → number, else the raw text; enum values by NAME -/
+/-- `literalToInput`: an Int token becomes a number only when it spells back to the same text (`-0` stays text,
+54b00d5), a Float token when `ParseFloat` succeeds, else the raw text; enum values by NAME -/
 def lti : Value → JVal
   | .var _ _ => .null
   | .int raw _ =>
     match intOfChars raw.toList with
-    | some i => if inInt64 i then .int i else .str raw
+    | some i => if inInt64 i && intChars i == raw.toList then .int i else .str raw   -- `Atoi` ok and `Itoa(n) == text`
     | none => .str raw
   | .float raw _ => (parseFloatLit raw.toList).getD (.str raw)
   | .str x _ => .str x
@@ -88,10 +89,11 @@ def mkVarDef (e : Entry) : VarDef := ⟨⟨e.name, Loc.none⟩, Loc.none, some (
 
 def NState.synth (st : NState) : List (String × JVal) := st.entries.map (fun e => (e.name, lti e.lit))
 
-/-- `tryExtract` (plan_cache_normalize.go:444-503): not extracted when the value is or contains a variable, or when
-`valueFromAST` yields nil; otherwise replaced by the synthetic variable standing for (type, printed literal). -/
+/-- `tryExtract`: not extracted when the value is or contains a variable, when it is not a valid literal of the
+expected type (`isValidLiteralValue`), or when `valueFromAST` yields nil; otherwise replaced by the synthetic variable standing for (type, printed literal). -/
 def tryExtract (s : Schema) (st : NState) (value : Value) (expected : GType) : Value × NState :=
   if hasVars value then (value, st)
+  else if !isValidLiteralValue s expected (some value) then (value, st)      -- 4210b3d: only valid literals are extracted
   else if (valueFromAST s expected (some value) []).isNull then (value, st)
   else
     match st.entries.find? (fun e => litKey e.type e.lit == litKey expected value) with
@@ -154,13 +156,56 @@ end
 
 def userVarNames (vars : List VarDef) : List String := vars.map (·.var.value)
 
-def initState (vars : List VarDef) : NState := ⟨0, userVarNames vars, []⟩
+/-! ### every `Variable` node of the document (the visitor pass that fills `taken`, 80085fd) -/
+
+mutual
+def valueVars : Value → List String
+  | .var x _ => [x]
+  | .list vs _ => valuesVars vs
+  | .obj fs _ => fieldsVars fs
+  | _ => []
+def valuesVars : List Value → List String
+  | [] => []
+  | v :: vs => valueVars v ++ valuesVars vs
+def fieldsVars : List ObjField → List String
+  | [] => []
+  | (.mk _ v _) :: fs => valueVars v ++ fieldsVars fs
+end
+
+def argsVars (as : List Argument) : List String := as.flatMap (fun a => valueVars a.value)
+def dirsVars (ds : List Directive) : List String := ds.flatMap (fun d => argsVars d.args)
+
+mutual
+def selVars : Selection → List String
+  | .field _ _ args dirs sel _ => argsVars args ++ dirsVars dirs ++ optSetVars sel
+  | .inline _ dirs ss _ => dirsVars dirs ++ setVars ss
+  | .spread _ dirs _ => dirsVars dirs
+def optSetVars : Option SelectionSet → List String
+  | none => []
+  | some ss => setVars ss
+def setVars : SelectionSet → List String
+  | .mk sels _ => selsVars sels
+def selsVars : List Selection → List String
+  | [] => []
+  | x :: xs => selVars x ++ selsVars xs
+end
+
+def defVars : Definition → List String
+  | .operation _ _ vars dirs sel _ =>
+    vars.flatMap (fun v => v.var.value :: (match v.default with | some d => valueVars d | none => [])) ++ dirsVars dirs ++ setVars sel
+  | .fragment _ _ dirs sel _ => dirsVars dirs ++ setVars sel
+  | _ => []
+
+def docVarNames (doc : Document) : List String := doc.defs.flatMap defVars
+
+/-- `taken`: the operation's own variable names and every variable name occurring in the document -/
+def initState (vars : List VarDef) (docNames : List String) : NState := ⟨0, userVarNames vars ++ docNames, []⟩
 
 /-- the operation part of `normalizeDocument`: clone, walk from the root type, append the synthetic definitions -/
-def normalizeOperation (s : Schema) (root : String) : Definition → Definition × List (String × JVal)
+def normalizeOperation (s : Schema) (root : String) (docNames : List String) : Definition → Definition × List (String × JVal)
   | .operation op name vars dirs sel loc =>
-    (.operation op name (vars ++ (normSet s root sel (initState vars)).2.entries.map mkVarDef) dirs
-       (normSet s root sel (initState vars)).1 loc, (normSet s root sel (initState vars)).2.synth)
+    (.operation op name (vars ++ (normSet s root sel (initState vars docNames)).2.entries.map mkVarDef) dirs
+       (normSet s root sel (initState vars docNames)).1 loc, (normSet s root sel (initState vars docNames)).2.synth)
   | d => (d, [])
 
 inductive DocOut where
@@ -199,7 +244,7 @@ def normalizeDocument (s : Schema) (doc : Document) (opName : String) : DocOut :
       match s.rootFor (opTypeOf opDef) with
       | none => .rootError
       | some root =>
-        let r := normalizeOperation s root opDef
+        let r := normalizeOperation s root (docVarNames doc) opDef
         if r.2.isEmpty then .ok doc [] else .ok { doc with defs := replaceAt doc.defs i r.1 } r.2
 
 end GqlModel.Normalize
